@@ -29,7 +29,14 @@ import (
 	"verif/harness/vt"
 )
 
-const verifDir = "/verif"
+// verifDir is the root of the verification tree: $VERIF_DIR when set (check.sh
+// sets it to its own directory, so a snapshot of /verif works in place), else /verif.
+var verifDir = func() string {
+	if d := os.Getenv("VERIF_DIR"); d != "" {
+		return d
+	}
+	return "/verif"
+}()
 const repoDir = "/repo"
 
 func usage() {
